@@ -90,14 +90,16 @@ def jobs(tier, seed, binp):
         masks = [0] + [1 << k for k in range(nfiles)] + [1 << (8 + k) for k in range(nfiles)]
         for W in (1, 2, 3):
             for fm in masks:
-                N = rng.choice([2, 3, 5, 8])
+                N = [1, 2, 3, 5, 8][len(J) % 5]        # (backlog below 3 is raised to 3 by the block processor: the boundary itself)
                 J.append((binp, "dfs", W, N, fm, "B:" + spec, (1 if W > 1 else 2), bcap, lim))
                 if tier != "quick":
                     J.append((binp, "rand", W, N, fm, "B:" + spec, seed * 1000 + len(J), 4000, lim))
     return J
 
 
-BP_SPECS = ["9000A", "100a,200b", "4096A,4096B,100c", "8192A,300b,4096C"]
+# ("100a,5000B": a pending fragment, then a file of one block plus tail - with the smallest backlog the sentinel block of the second
+# file is requested while fragment block and current block already fill the backlog)
+BP_SPECS = ["9000A", "100a,200b", "4096A,4096B,100c", "8192A,300b,4096C", "100a,5000B"]
 BP_SPECS_MORE = ["12288A", "5000A,5000A,700b", "4096z,4200A,50c,50c", "300a,300b,300c,300d,300e,300f,300g,300h,300i,300j,300k,300l,300m,300n,8300A"]
 
 
